@@ -224,6 +224,7 @@ spif_bool_t
 spif_ustr_init_from_fp(spif_ustr_t self, FILE *fp)
 {
     spif_charptr_t p, end = NULL;
+    spif_stridx_t pos = 0;
 
     ASSERT_RVAL(!SPIF_USTR_ISNULL(self), FALSE);
     ASSERT_RVAL((fp != (FILE *) NULL), FALSE);
@@ -233,8 +234,10 @@ spif_ustr_init_from_fp(spif_ustr_t self, FILE *fp)
     self->len = 0;
     self->s = (spif_charptr_t) MALLOC(self->size);
 
-    for (p = self->s; fgets((char *)p, buff_inc, fp); p += buff_inc) {
+    for (p = self->s; fgets((char *)p, buff_inc, fp); p = self->s + pos) {
         if (!(end = (spif_charptr_t)strchr((const char *)p, '\n'))) {
+            /* The buffer may move; keep an offset, not a pointer into it. */
+            pos += buff_inc;
             self->size += buff_inc;
             self->s = (spif_charptr_t) REALLOC(self->s, self->size);
         } else {
